@@ -147,6 +147,48 @@ Theorem C06_receipt_format : forall cfg num coinbase run idx s pool cum m r,
 Proof. exact receipt_format. Qed.
 Print Assumptions C06_receipt_format.
 
+(* 7. account existence (EIP-161), on the existence layer of the model (apply_transaction_e): where empty
+      accounts are deleted, no account that the transaction dirtied is left empty, and no suicided one is left *)
+Theorem C06_eip161_no_empty_dirty_account_survives : forall cfg num coinbase run erun idx s pool cum m es r a,
+  apply_transaction cfg num coinbase run idx s pool cum m = TxOk r ->
+  (is_forked (c_byzantium cfg) num = true \/ is_forked (c_eip158 cfg) num = true) ->
+  let es' := apply_transaction_e cfg num coinbase run erun idx s pool cum m es in
+  In a (es_exist es') -> In a (es_dirty es') ->
+  ~ In a (t_suicided (x_tdb r)) /\ is_empty_acc (get a (t_state (x_tdb r))) = false.
+Proof. exact eip161_no_empty_dirty_account_survives. Qed.
+Print Assumptions C06_eip161_no_empty_dirty_account_survives.
+
+(* Clause 4 at full strength would also say that a failed execution changes the EXISTENCE of no account
+   other than through the fee (forall a, a <> sender -> a <> coinbase -> In a (es_exist es') <-> In a (es_exist es)).
+   That is false of the code in two ways; C06_failed_tx_leaves_only_fees above is the proved remainder (content). *)
+Theorem C06_failed_tx_deletes_empty_recipient_refuted :
+  exists cfg num coinbase s pool m es r,
+    apply_transaction cfg num coinbase failing_run 0 s pool 0 m = TxOk r /\ t_failed (x_tdb r) = true /\
+    m_to m = Some 4 /\ In 4 (es_exist es) /\
+    ~ In 4 (es_exist (apply_transaction_e cfg num coinbase failing_run no_erun 0 s pool 0 m es)).
+Proof. exact failed_tx_deletes_empty_recipient_refuted. Qed.
+Print Assumptions C06_failed_tx_deletes_empty_recipient_refuted.
+
+Theorem C06_failed_tx_creates_empty_recipient_refuted :
+  exists cfg num coinbase s pool m es r,
+    apply_transaction cfg num coinbase failing_run 0 s pool 0 m = TxOk r /\ t_failed (x_tdb r) = true /\
+    m_to m = Some 2 /\ ~ In 2 (es_exist es) /\
+    In 2 (es_exist (apply_transaction_e cfg num coinbase failing_run no_erun 0 s pool 0 m es)).
+Proof. exact failed_tx_creates_empty_recipient_refuted. Qed.
+Print Assumptions C06_failed_tx_creates_empty_recipient_refuted.
+
+(* Without Homestead (no built-in configuration: C06_builtin_homestead) clauses 2 and 4 fail: a creation whose
+   code deposit runs out of gas is reported failed, yet the value stays with the new account (Frontier rule) *)
+Theorem C06_frontier_code_store_oog_refuted :
+  exists cfg num coinbase s pool m r,
+    is_forked (c_homestead cfg) num = false /\
+    apply_transaction cfg num coinbase csoog_run 0 s pool 0 m = TxOk r /\ t_failed (x_tdb r) = true /\
+    m_to m = None /\
+    bal (get (m_from m) (x_state r)) = (bal (get (m_from m) s) - Z.of_N (t_used (x_tdb r) * m_price m) - Z.of_N (m_value m))%Z /\
+    bal (get (recipient m s) (x_state r)) = Z.of_N (m_value m) /\ m_value m = 5.
+Proof. exact frontier_code_store_oog_refuted. Qed.
+Print Assumptions C06_frontier_code_store_oog_refuted.
+
 (* non-vacuity: a concrete transaction (value 5, limit 30000, price 2, 5000 gas burnt by the callee)
    meets every premise of the balance equation, and the equation gives the expected numbers *)
 Example C06_example :
